@@ -68,6 +68,12 @@ func (g *gen) leaf() *V {
 	case 7:
 		return &V{K: "wbytes", C: g.can()}
 	case 8:
+		switch g.r.Intn(4) {
+		case 0:
+			return &V{K: "jnum", I: int64(g.r.Intn(1000)) + 1} // json.Number: a number held in a named string type
+		case 1:
+			return &V{K: "role", I: int64(g.r.Intn(9)) + 1} // type Role string
+		}
 		return &V{K: "int", I: int64(g.r.Intn(100)) + 1}
 	case 9:
 		return &V{K: "bool", I: 1}
@@ -185,6 +191,12 @@ func (g *gen) mapLeaf() *V {
 		}
 		return v
 	default:
+		switch g.r.Intn(3) {
+		case 0:
+			return &V{K: "jnum", I: int64(g.r.Intn(1000)) + 1}
+		case 1:
+			return &V{K: "role", I: int64(g.r.Intn(9)) + 1}
+		}
 		return &V{K: "int", I: int64(g.r.Intn(50)) + 1}
 	}
 }
@@ -217,7 +229,7 @@ func (g *gen) mapv(depth int) *V {
 			}
 		} else {
 			if shape == nil {
-				switch g.r.Intn(7) {
+				switch g.r.Intn(8) {
 				case 0:
 					shape = &V{K: "ptr", Elem: g.strct(depth - 1)}
 				case 1, 2:
@@ -229,6 +241,12 @@ func (g *gen) mapv(depth int) *V {
 				case 5:
 					shape = g.mapv(depth - 1)
 					shape.Iface = true
+				case 6:
+					if g.r.Bool() {
+						shape = &V{K: "role", I: 1}
+					} else {
+						shape = &V{K: "jnum", I: 7}
+					}
 				default:
 					shape = &V{K: "str", C: g.can()}
 				}
@@ -451,7 +469,7 @@ func (g *gen) payload(depth int) (string, *V) {
 			}
 			return "val", &V{K: "str", C: g.can()}
 		default:
-			return "rotate", nil
+			return "rotate", &V{K: []string{"all", "salt", "info", "wrapper", "empty"}[g.r.Intn(5)]}
 		}
 	case 22:
 		// a struct handed over BY VALUE (outside G for the no-leak theorem: its own strings cannot be set; what it refers
